@@ -139,11 +139,14 @@ struct case_t
 };
 
 // ---- generation ----------------------------------------------------------------------------------------------------
+// relative grid steps of the scalar features (distinct values differ by >= q*max|x|); "--grid fine|design" are experiments
+std::vector<double> g_grid{0.01, 0.02, 0.05, 0.1, 0.25};
+
 void gen_scalar_feature(vf::rng_t& rng, store_t& st, double pmiss)
 {
     // values live on a grid k*step, |x| <= X <= 10, distinct values differ by >= 1e-2*X (see the header of main()):
     const double X    = rng.pick(std::vector<double>{0.5, 1.0, 3.0, 10.0});
-    const double q    = rng.pick(std::vector<double>{0.01, 0.02, 0.05, 0.1, 0.25});
+    const double q    = rng.pick(g_grid);
     const double step = X * q;
     const auto   kmax = static_cast<int64_t>(std::floor(1.0 / q + 1e-9));
     const int    kind = static_cast<int>(rng.integer(0, 5));
@@ -982,8 +985,11 @@ void run_optimal(vf::ctx_t& c, const bool multi_pools)
         }
         else
         {
-            const ld err = std::min(std::fabs(sc - lo), std::fabs(sc - up));
-            c.maxc("score_err_ppm_of_tol:" + id, static_cast<int64_t>(1e6L * err / tol));
+            // distance to the attained minimum when the bracket is closed (how much of the tolerance the rounding noise uses)
+            if (b.lo == b.up)
+            {
+                c.maxc("score_err_ppm_of_tol:" + id, static_cast<int64_t>(1e6L * std::fabs(sc - lo) / tol));
+            }
         }
 
         // predictions reproduce the score
@@ -1833,6 +1839,14 @@ int main(int argc, char** argv)
 {
     const auto args  = vf::parse_args(argc, argv);
     const bool multi = args.get("pools") == "multi";
+    if (args.get("grid") == "fine")
+    {
+        g_grid = {0.001, 0.002, 0.005, 0.01, 0.05, 0.25};
+    }
+    else if (args.get("grid") == "design")
+    {
+        g_grid = {0.0001, 0.0002, 0.001, 0.01, 0.05, 0.25};
+    }
     if (args.mode == "algebra")
     {
         return vf::run(args, "C10",
